@@ -161,6 +161,7 @@ func (c *Client) PubCount() int { c.mu.Lock(); defer c.mu.Unlock(); return len(c
 
 type Options struct {
 	RootDir               string // "" = no workspace
+	RootURI               string // the workspace folder as the client spells it (percent-encoded); "" = "file://" + RootDir
 	InitOptions           any    // initializationOptions as decoded JSON
 	SupportsConfiguration bool
 	Config                any // answer to workspace/configuration
@@ -185,7 +186,11 @@ func New(o Options) (*Harness, error) {
 		params.Capabilities.Workspace = &protocol.WorkspaceClientCapabilities{Configuration: true}
 	}
 	if o.RootDir != "" {
-		params.WorkspaceFolders = []protocol.WorkspaceFolder{{URI: "file://" + o.RootDir, Name: "ws"}}
+		ru := "file://" + o.RootDir
+		if o.RootURI != "" {
+			ru = o.RootURI
+		}
+		params.WorkspaceFolders = []protocol.WorkspaceFolder{{URI: ru, Name: "ws"}}
 	}
 	res, err := h.S.Initialize(context.Background(), params)
 	if err != nil {
